@@ -54,6 +54,14 @@ CHECKS = {
             'pinned scenarios (known findings).',
             'explicit-state BFS over operation histories of real object graphs vs. an object-graph reference model',
             BASE_NOTE),
+    'C08': ('model_checking', 'DESIGN.md §3 C08',
+            'BFS over link / relink / override / source and rx-root updates / update contexts (keyword and positional) / multi-key update for '
+            'reference kinds Parameter, bind of 1 and 2 parameters, depends method, rx over a Parameter, rx root, list and dict containing a Parameter '
+            '(nested_refs), with links made in the constructor or later, plus a bounded Number target whose source may take invalid values; after '
+            'every step each target parameter must equal the model\'s own evaluation of its live link (or its last plain value) and each source '
+            'parameter must carry exactly one sync watcher of the target iff a live link depends on it.',
+            'explicit-state BFS over operation histories of the real code vs. a reference model of live links',
+            BASE_NOTE),
     'C15': ('exploration', 'DESIGN.md §3 C15',
             'For 18 serializable parameter types a boundary-rich value list (extreme ints/floats, -0.0, escape-laden and non-ASCII strings, empty '
             'containers, microseconds, years 1/999/9999, date-only and datetime ranges, None) x class/instance level x {all, subset=, '
